@@ -276,6 +276,8 @@ pub struct Ctl {
     pub n_madctl: u64,
     /// number of words latched with DC low
     pub n_cmd_words: u64,
+    /// raw bus words of the most recent complete pixel
+    pub last_raw: [u16; 3],
 }
 
 impl Ctl {
@@ -324,6 +326,7 @@ impl Ctl {
             n_pixels: 0,
             n_madctl: 0,
             n_cmd_words: 0,
+            last_raw: [0; 3],
         };
         c.reset_regs();
         c
@@ -567,6 +570,13 @@ impl Ctl {
             return;
         }
         self.acc_n = 0;
+        self.last_raw = self.acc;
+        if wpp < 3 {
+            self.last_raw[2] = 0;
+        }
+        if wpp < 2 {
+            self.last_raw[1] = 0;
+        }
         let val = self.decode_acc(wpp);
         self.put_pixel(val);
     }
@@ -669,9 +679,11 @@ impl Ctl {
             return;
         }
         let wpp = wpp.unwrap();
+        self.acc = [0; 3];
         for (i, &w) in words.iter().enumerate() {
             self.acc[i] = w;
         }
+        self.last_raw = self.acc;
         let val = self.decode_acc(wpp);
         let (sc, ec) = self.caset;
         let (sp, ep) = self.raset;
